@@ -68,6 +68,16 @@ def c14():
     # the same kinds of histories with the calls made from three threads in turn (strictly sequential): "any sequence of
     # calls" does not say from which thread; per-thread caches of lookups, thread-affine state
     scripts += ["\n".join(sc) for sc in _dead_descriptor_across_threads()]
+    # two live instances whose descriptors agree in their low bits (tables or bitmaps indexed by descriptor mod 2^j):
+    # the second is created with the counter preset to d + 2^j - 1, destroyed, and the first must be unaffected
+    for j_ in (8, 12, 16, 20, 24, 30):
+        for cfgA, cfgB in (("6 2 1 1 16 2", "6 4 2 2 16 1"), ("3 3 3 3 32 1", "6 2 1 1 16 2")):
+            kA = int(cfgA.split()[1]); mA = int(cfgA.split()[2]); idxA = " ".join(map(str, range(1, kA + mA)))
+            scripts.append("\n".join(["reset", "create 1 %s" % cfgA, "setnext %d" % ((1 << j_)), "create 2 %s" % cfgB, "probe",
+                                       "setnext %d" % (2 * (1 << j_)), "create 3 %s" % cfgA, "destroy s2", "probe",
+                                       "encode s1 1 100 7 0 0", "decode s1 1 1 0 -100 0 0 %d %s" % (kA + mA - 1, idxA), "dec_cleanup s1 1 0",
+                                       "enc_cleanup s1 1 0", "size s1 100", "destroy s3", "encode s1 2 50 3 0 0", "enc_cleanup s1 2 0",
+                                       "destroy s1", "probe"]))
     # hundreds of live instances sharing the GF tables (a reference count or registry that only works for a handful):
     # 257 and 300 RS instances, one destroyed, a survivor decodes with a lost data fragment, all destroyed
     for N, cfg_ in ((257, "6 2 1 1 16 2"), (300, "6 4 2 2 16 1"), (130, "3 3 3 3 32 1")):
@@ -250,6 +260,10 @@ def c16():
         sw.append("create_box %d -1 6 -1 5 %s %d 1" % (be, "2 5" if be == 3 else "0 1", WORD.get(be, 16)))
         sw.append("create_box %d 30 33 -1 3 %s %d 2" % (be, "3 4" if be == 3 else "0 1", WORD.get(be, 16)))
     sw += _w_box()
+    # forced metadata checks with invalid fragments in the list, incl. refusals after filtering (the filtered list is an
+    # allocation of its own)
+    for j, (be, k, m, hd) in enumerate([(BE_RS, 4, 2, 2), (BE_XOR, 5, 5, 3), (BE_RS, 3, 3, 3), (BE_XOR, 6, 6, 4), (BE_RS, 20, 12, 12)]):
+        sw.append("sweep_force %d %d %d %d %d 2 %d %d %d" % (be, k, m, hd, WORD[be], 60 + j, _seed_of(chk, 980 + j), 700))
     fs, es, rs_ = run_sweeps("asan", sw, "C16-sweep")
     vs = validate("TraceCodes", fs)
     _collect(chk, vs, ["C16", "fault"])
@@ -517,6 +531,12 @@ def c17():
     chk.parts["model_fault_histories_replayed"] = len(fpaths)
     scripts += ["\n".join(H.path_to_script(p_, i)) for i, p_ in enumerate(fpaths)]
     v, files = _run_hist(chk, scripts, "C17", ["C17", "C16", "C13", "C14", "C02", "fault"])
+    # a backend's init that refuses by itself (unsupported word size, unsupported flat-XOR shape) is a failing init too: the
+    # stub replaces init entirely and never reaches those exits
+    wb = _w_box() + ["create_box 3 1 8 1 7 2 5 32 1"]
+    fwb, ewb, rwb = run_sweeps("asan", wb, "C17-box")
+    vwb = validate("TraceCodes", fwb)
+    _collect(chk, vwb, ["C16 failed create kept memory", "C16 create+destroy", "fault"])
     c = v.counts or [0] * 16
     chk.cov["evaluations"] = max(chk.cov["evaluations"], 1)
     chk.cov["distinct_nontrivial"] = c[8]
